@@ -144,7 +144,45 @@ func runFanoutScenario(c *Ctx, NAME, peerName string, proto mangos.ProtocolBase,
 	e.Finish()
 }
 
+// directed: subscribers that have stalled with full queues must not keep a message from one that keeps up — whichever
+// order the socket visits its pipes in (a map: the order changes from Send to Send)
+func runPubStalledDoesNotStarve(c *Ctx, cooked bool) {
+	var proto mangos.ProtocolBase
+	if cooked {
+		proto = pub.NewProtocol()
+	} else {
+		proto = xpub.NewProtocol()
+	}
+	e := NewExec(c, "m.pub", proto, "pub")
+	e.SetOpt(0, mangos.OptionWriteQLen, "1", 1)
+	for p := 201; p <= 204; p++ {
+		if e.AddPipe(p) != "ok" {
+			e.Finish()
+			return
+		}
+	}
+	for p := 201; p <= 203; p++ {
+		e.Hold(p, true)
+	}
+	for seq := 1; seq <= 12 && !e.broken; seq++ {
+		body := []byte{'s', byte(seq >> 8), byte(seq)}
+		e.Send(0, nil, body)
+		found := false
+		for _, ev := range splitEvents(lastObs(e)) {
+			if ev.kind == "tx" && ev.pipe == 204 && bytes.Equal(ev.msg, body) {
+				found = true
+			}
+		}
+		if !found && !e.broken {
+			c.Violate(fmt.Sprintf("PUB: subscriber pipe 204 keeps up (its queue is empty) but was not sent message #%d, published while three other subscribers were stalled with full queues", seq), e.Replay())
+		}
+	}
+	e.Finish()
+}
+
 func runPubScenarios(c *Ctx) {
+	runPubStalledDoesNotStarve(c, true)
+	runPubStalledDoesNotStarve(c, false)
 	n := 60
 	if c.Thorough() {
 		n = 1200
